@@ -305,6 +305,35 @@ fn mutate(dec: &str, m: &str, arg: &str, base: &[u8], rng: &mut rand::rngs::StdR
                 b
             }
         }
+        "resize" => {
+            // a byte or text string of the document made shorter / longer CONSISTENTLY (header and content agree): the
+            // document stays well-formed CBOR, only the member has a length its consumer may not expect
+            let hs: Vec<_> = cbor_headers(&b).into_iter().filter(|h| matches!(h.1, 2 | 3)).collect();
+            if let Some(&(off, major, hl, actual)) = hs.choose(rng) {
+                let actual = actual as usize;
+                let new_len = match arg {
+                    "zero" => 0,
+                    "minus1" => actual.saturating_sub(1),
+                    "plus1" => actual + 1,
+                    _ => (2 * actual).max(1),
+                };
+                let mut v = b[..off].to_vec();
+                if new_len < 24 {
+                    v.push((major << 5) | new_len as u8);
+                } else if new_len < 256 {
+                    v.extend_from_slice(&[(major << 5) | 24, new_len as u8]);
+                } else {
+                    v.push((major << 5) | 25);
+                    v.extend_from_slice(&(new_len as u16).to_be_bytes());
+                }
+                let content = &b[(off + hl).min(b.len())..(off + hl + actual).min(b.len())];
+                v.extend(content.iter().copied().chain(std::iter::repeat(0x41)).take(new_len));
+                v.extend_from_slice(&b[(off + hl + actual).min(b.len())..]);
+                return v;
+            }
+            b
+        }
+        "manyentries" => b,     // grown in the child (expand_many), the inputs file carries the valid encoding only
         "bigseq" => {
             // arg = "<present>:<declared>": a byte string or list member re-encoded as a definite-length array that
             // declares <declared> elements and really carries <present> well-formed ones (enough to run past any cap on
@@ -467,6 +496,98 @@ fn decode(dec: &str, b: &[u8]) -> bool {
     }
 }
 
+/// `manyentries`: the valid encoding with one of its lists grown to `n` pairwise different entries (descriptors get
+/// distinct ids, enumeration lists distinct strings).  Expanded in the child so that the inputs file stays small.
+fn expand_many(dec: &str, base: &[u8], what: &str, n: usize) -> Vec<u8> {
+    let jsonish = dec.starts_with("json") || dec == "clientData" || dec == "bytesJson";
+    if jsonish {
+        fn grow(v: &mut Value, what: &str, n: usize, done: &mut bool) {
+            if *done {
+                return;
+            }
+            match v {
+                Value::Array(a) if !a.is_empty() => {
+                    let is_desc = a[0].as_object().map(|m| m.contains_key("id") || m.contains_key("alg")).unwrap_or(false);
+                    let is_enum = a[0].is_string();
+                    if (what == "desc" && is_desc) || (what == "enum" && is_enum) {
+                        let first = a[0].clone();
+                        a.clear();
+                        for i in 0..n {
+                            let mut e = first.clone();
+                            if let Some(m) = e.as_object_mut() {
+                                if m.contains_key("id") {
+                                    m.insert("id".into(), json!(crate::rp::b64url(&(i as u64).to_be_bytes())));
+                                }
+                                if m.contains_key("alg") {
+                                    m.insert("alg".into(), json!(-(i as i64) - 1));
+                                }
+                            } else {
+                                e = json!(format!("value-{i}"));
+                            }
+                            a.push(e);
+                        }
+                        *done = true;
+                    } else {
+                        a.iter_mut().for_each(|x| grow(x, what, n, done));
+                    }
+                }
+                Value::Object(m) => m.values_mut().for_each(|x| grow(x, what, n, done)),
+                _ => {}
+            }
+        }
+        let Ok(mut v) = serde_json::from_slice::<Value>(base) else { return base.to_vec() };
+        let mut done = false;
+        grow(&mut v, what, n, &mut done);
+        serde_json::to_vec(&v).unwrap()
+    } else {
+        use ciborium::value::Value as C;
+        fn grow(v: &mut C, what: &str, n: usize, done: &mut bool) {
+            if *done {
+                return;
+            }
+            match v {
+                C::Array(a) if !a.is_empty() => {
+                    let is_desc = a[0].as_map().map(|m| m.iter().any(|(k, _)| k.as_text() == Some("id") || k.as_text() == Some("alg"))).unwrap_or(false);
+                    let is_enum = a[0].is_text() || a[0].is_integer();
+                    if (what == "desc" && is_desc) || (what == "enum" && is_enum) {
+                        let first = a[0].clone();
+                        a.clear();
+                        for i in 0..n {
+                            let mut e = first.clone();
+                            if let C::Map(m) = &mut e {
+                                for (k, x) in m.iter_mut() {
+                                    if k.as_text() == Some("id") {
+                                        *x = C::Bytes((i as u64).to_be_bytes().to_vec());
+                                    }
+                                    if k.as_text() == Some("alg") {
+                                        *x = C::Integer((-(i as i64) - 1).into());
+                                    }
+                                }
+                            } else if e.is_text() {
+                                e = C::Text(format!("value-{i}"));
+                            } else {
+                                e = C::Integer((i as i64).into());
+                            }
+                            a.push(e);
+                        }
+                        *done = true;
+                    } else {
+                        a.iter_mut().for_each(|x| grow(x, what, n, done));
+                    }
+                }
+                C::Map(m) => m.iter_mut().for_each(|(_, x)| grow(x, what, n, done)),
+                _ => {}
+            }
+        }
+        let Ok(mut v) = ciborium::de::from_reader::<C, _>(base) else { return base.to_vec() };
+        let mut done = false;
+        grow(&mut v, what, n, &mut done);
+        let mut out = vec![];
+        ciborium::ser::into_writer(&v, &mut out).unwrap();
+        out
+    }
+}
+
 // ------------------------------------------------------------------------------------------ subcommands
 fn gen(args: &Args) {
     let cases: Vec<Value> = serde_json::from_str(&std::fs::read_to_string(args.req("cases")).expect("cases")).expect("json");
@@ -477,7 +598,7 @@ fn gen(args: &Args) {
     for c in &cases {
         let (dec, m, arg) = (c["dec"].as_str().unwrap(), c["mut"].as_str().unwrap(), c["arg"].as_str().unwrap());
         // the large inputs of the bigseq family are concretised fewer times
-        let reps = if m == "bigseq" { (reps / 8).max(3) } else { reps };
+        let reps = if m == "bigseq" { (reps / 8).max(3) } else if m == "manyentries" { 2 } else { reps };
         for _ in 0..reps {
             let base = valid(dec, &mut rng);
             let input = mutate(dec, m, arg, &base, &mut rng);
@@ -506,7 +627,11 @@ fn run_child(args: &Args) {
     let mut out = std::fs::OpenOptions::new().create(true).append(true).open(args.req("out")).expect("child out");
     for c in inputs.iter().skip(from) {
         let dec = c["dec"].as_str().unwrap();
-        let input = unhex(c["input"].as_str().unwrap());
+        let mut input = unhex(c["input"].as_str().unwrap());
+        if c["mut"] == "manyentries" {
+            let (what, n) = c["arg"].as_str().unwrap().split_once(':').unwrap();
+            input = expand_many(dec, &input, what, n.parse().unwrap());
+        }
         writeln!(out, "{}", json!({"begin": c["id"]})).unwrap();
         out.flush().unwrap();
         // SAFETY: alarm has no memory-safety preconditions
